@@ -773,6 +773,16 @@ func runScript(c *caseCtx, spec *scriptSpec) (out scriptOutcome) {
 		return ""
 	}
 	fail := func(format string, a ...any) { res.violate(format, a...) }
+	// a wait that ran into the watchdog is decided on state where possible: if the process has come to
+	// rest, what the model expects can no longer happen
+	undecided := func(format string, a ...any) {
+		msg := fmt.Sprintf(format, a...)
+		if rest, where := atRest(3 * time.Second); rest {
+			fail("%s - and it never will: the process has come to rest (every goroutine parked on a channel or lock, none running, runnable or sleeping: %s)", msg, where)
+		} else {
+			res.inconclusive("%s (%s)", msg, where)
+		}
+	}
 
 	// -- spawn (with the early senders racing it)
 	var earlyDone chan struct{}
@@ -890,7 +900,7 @@ func runScript(c *caseCtx, spec *scriptSpec) (out scriptOutcome) {
 					if waitFor(wd/3, func() bool { return rec.has("msg", -9) }) {
 						fail("messages were lost: a probe sent afterwards was delivered, but gate %d and what was queued before it never were (deliveries so far %d of %d expected: %s)", last.ID, len(out.observed), len(model.log), tailStr(out.observed, 6))
 					} else {
-						res.inconclusive("gate %d was not reached within the watchdog; deliveries so far agree with the model (%d of %d)", last.ID, len(out.observed), len(model.log))
+						undecided("gate %d was not reached within the watchdog; deliveries so far agree with the model (%d of %d)", last.ID, len(out.observed), len(model.log))
 					}
 				}
 			}
@@ -954,7 +964,7 @@ func runScript(c *caseCtx, spec *scriptSpec) (out scriptOutcome) {
 					fail("context of %v never became done: the request was lost. Two messages sent after it, the second only after the first had been handled, were both handled by the actor, so the batch that held the request has been processed to its end (restart and replay included) and the actor is still running with nothing left that could stop it", p.it)
 				} else {
 					aborted = true
-					res.inconclusive("context of %v not done within the watchdog and the actor has not been seen stopping", p.it)
+					undecided("context of %v not done within the watchdog and the actor has not been seen stopping", p.it)
 				}
 			}
 		}
@@ -968,7 +978,7 @@ func runScript(c *caseCtx, spec *scriptSpec) (out scriptOutcome) {
 			if d := diffLogs(model.log, out.observed, true); d != "" {
 				fail("the model says the actor ends, ActorStoppedEvent never came, and the deliveries deviate: %s", d)
 			} else if !aborted {
-				res.inconclusive("ActorStoppedEvent not observed within the watchdog")
+				undecided("ActorStoppedEvent not observed within the watchdog")
 			}
 			out.all = rec.snapshotAll()
 			finishScript(c, spec, &out)
@@ -1035,7 +1045,7 @@ func runScript(c *caseCtx, spec *scriptSpec) (out scriptOutcome) {
 			} else if e.Registry.GetPID("scripted", "a") == nil {
 				fail("the model says the actor is alive, but it is no longer registered (deliveries so far: %v)", tailStr(out.observed, 8))
 			} else {
-				res.inconclusive("probe not delivered within the watchdog; deliveries so far agree with the model")
+				undecided("probe not delivered within the watchdog; deliveries so far agree with the model")
 			}
 			out.all = rec.snapshotAll()
 			finishScript(c, spec, &out)
